@@ -490,6 +490,18 @@ def m_shutil_move(I_, a, k):
     return mk(dst)
 
 
+def m_simple_mutation(op, nargs=1):
+    def f(I_, a, k):
+        paths = [z3str(x) for x in a[:nargs]]
+        ev = mutating(I_, op, paths + list(a[nargs:]), paths, op)
+        return None
+    return f
+
+
+def m_normcase(I_, a, k):
+    return a[0]
+
+
 def m_getuid(I_, a, k):
     u = I_.ctx.fresh_int('uid')
     I_.ctx.assume(u >= 0)
@@ -562,7 +574,19 @@ def register(lib):
             ('os.close', m_close), ('os.remove', m_remove),
             ('os.unlink', m_remove), ('os.rename', m_rename),
             ('shutil.rmtree', m_rmtree), ('shutil.move', m_shutil_move),
-            ('os.getuid', m_getuid), ('os.isatty', m_isatty)):
+            ('os.getuid', m_getuid), ('os.isatty', m_isatty),
+            ('os.chmod', m_simple_mutation('chmod')),
+            ('os.rmdir', m_simple_mutation('rmdir')),
+            ('os.utime', m_simple_mutation('utime')),
+            ('os.chown', m_simple_mutation('chown')),
+            ('os.symlink', m_simple_mutation('symlink', 2)),
+            ('os.link', m_simple_mutation('link', 2)),
+            ('os.replace', m_rename),
+            ('shutil.copy2', m_simple_mutation('copy', 2)),
+            ('shutil.copy', m_simple_mutation('copy', 2)),
+            ('shutil.copyfile', m_simple_mutation('copy', 2)),
+            ('shutil.copytree', m_simple_mutation('copy', 2)),
+            ('posixpath.normcase', m_normcase)):
         r[name] = B_(name, fn)
     r['os.EX_OK'] = 0
     r['os.EX_USAGE'] = 64
